@@ -9,18 +9,43 @@
    - [StableSortContract S]: S permutes; S returns the stable sorted
      permutation whenever Less is a strict weak order on the input; S calls
      Less only on elements of the input; S depends on Less only through its
-     answers.  This is what the theorems assume of sort.Stable.
+     answers.  Proved both for the insertion sort (C10_isort_contract) and for
+     the transcription of Go's sort.Stable (C10_go_stable_meets_contract).
    - "mutually comparable" is [SWO_on (okless rk c) keys]: on the keys of the
      input the comparator is asymmetric and "not smaller" is transitive (C09
      proves this of vals.Cmp; here it is a hypothesis, discharged for numbers
      in C10_order_numbers). *)
 From Coq Require Import Permutation Sorted.
-From verif Require Import lib.Base model.C10 proofs.C10_sort proofs.C10_proofs.
+From verif Require Import lib.Base model.C10 proofs.C10_sort proofs.C10_proofs proofs.C10_gostable.
 
 (* ---- the verified insertion sort satisfies the contract assumed of sort.Stable ---- *)
 Theorem C10_isort_contract : StableSortContract isortT.
 Proof. exact isortT_contract. Qed.
 Print Assumptions C10_isort_contract.
+
+(* ---- the transcription of Go's sort.Stable (insertion-sorted blocks of 20, then
+   symMerge passes: binary searches, rotations, recursion on both halves)
+   satisfies the same contract, for every length and every Less: always a
+   permutation; the stable sorted permutation whenever Less is a strict weak
+   order on the input; Less called on input elements only; extensional ---- *)
+Theorem C10_go_stable_meets_contract : StableSortContract gostableT.
+Proof. exact gostableT_contract. Qed.
+Print Assumptions C10_go_stable_meets_contract.
+
+(* so the model that is compared with the implementation on every run (order_go)
+   meets the specification itself, with no assumption about the sort *)
+Theorem C10_order_go_meets_spec : forall rk o vals,
+  (forall ks, static_keys o vals = Some ks -> SWO_on (okless rk (comparator_of o)) ks) ->
+  let m := order_go rk o vals in
+  Spec_C10 rk o vals (r_out m) (r_err m) (model_cb_failed o m).
+Proof. exact order_go_meets_spec. Qed.
+Print Assumptions C10_order_go_meets_spec.
+
+(* Go's algorithm and the insertion sort arrange alike under a strict weak order *)
+Theorem C10_go_stable_eq_isort : forall (X : Type) (less : X -> X -> bool) l,
+  SWO_on less l -> fst (gostableT X less l) = isort X less l.
+Proof. exact @gostable_eq_isort. Qed.
+Print Assumptions C10_go_stable_eq_isort.
 
 (* ---- main theorem: for every sort satisfying the contract, every option
    combination and every input whose keys are mutually comparable, what the
